@@ -9,6 +9,7 @@ package vpool
 import (
 	"bufio"
 	"bytes"
+	"errors"
 	"io"
 	"sync"
 )
@@ -68,7 +69,7 @@ func Scribble(v any) {
 	case *bufio.Reader:
 		// whoever still reads through a released reader reads what its next owner put there: poison for ever
 		if t != nil {
-			t.Reset(poisonSource{})
+			t.Reset(&poisonSource{left: 512})
 		}
 	case *bufio.Writer:
 		// whatever is still written through a released writer goes to its next owner's destination: lost here
@@ -78,11 +79,20 @@ func Scribble(v any) {
 	}
 }
 
-type poisonSource struct{}
+// poisonSource delivers a bounded amount of poison and then fails: an endless source would let a caller that
+// reads "until the connection closes" fill the memory.
+type poisonSource struct{ left int }
 
-func (poisonSource) Read(b []byte) (int, error) {
-	for i := range b {
+func (p *poisonSource) Read(b []byte) (int, error) {
+	if p.left <= 0 {
+		return 0, errUseAfterPut
+	}
+	n := min(len(b), p.left)
+	for i := 0; i < n; i++ {
 		b[i] = Poison
 	}
-	return len(b), nil
+	p.left -= n
+	return n, nil
 }
+
+var errUseAfterPut = errors.New("read through a pooled reader after it was returned to its pool")
